@@ -4,6 +4,7 @@ import (
 	"fmt"
 	"go/token"
 	"go/types"
+	"strings"
 
 	"golang.org/x/tools/go/ssa"
 )
@@ -379,6 +380,38 @@ func c12(r *Report, s *Sem) {
 			}
 		})
 		r.Check(R5, "func "+fnName(conn)+" / reads the end-of-stream flag", p.pos(conn.Pos()), reads, "Connected() must turn false after EOF")
+	}
+
+	// ---- R6: what was reported as sent stays in the kernel's hands until delivered
+	R6 := r.Rule("R6", "no data-discarding socket option: every call the package makes on a net/tls connection or listener object is inspected, and none is SetLinger with a non-negative value (SO_LINGER ≥ 0 makes Close discard or bound the delivery of bytes whose Write already reported success — the peer reads a cut stream after envelopes were reported as sent)", 10)
+	for _, fn := range p.LimeFuncs() {
+		eachCall(fn, func(c ssa.CallInstruction) {
+			cc := c.Common()
+			var recv types.Type
+			name := ""
+			if cc.IsInvoke() {
+				recv, name = cc.Value.Type(), cc.Method.Name()
+			} else if g := staticCallee(c); g != nil && g.Signature.Recv() != nil {
+				recv, name = g.Signature.Recv().Type(), g.Name()
+			} else {
+				return
+			}
+			n := namedOf(recv)
+			if n == nil || n.Obj().Pkg() == nil {
+				return
+			}
+			if pk := n.Obj().Pkg().Path(); (pk != "net" && pk != "crypto/tls") || !strings.HasSuffix(n.Obj().Name(), "Conn") {
+				return
+			}
+			bad := ""
+			if name == "SetLinger" {
+				bad = "SetLinger"
+				if k, isC := constInt(stripConv(cc.Args[len(cc.Args)-1])); isC && k < 0 {
+					bad = "" // the default: Close returns at once and the kernel keeps delivering
+				}
+			}
+			r.Check(R6, fmt.Sprintf("func %s / %s.%s keeps written data deliverable", fnName(fn), n.Obj().Name(), name), p.instrPos(c), bad == "", map[bool]string{true: "", false: "SetLinger(sec ≥ 0) on a connection of the transport"}[bad == ""])
+		})
 	}
 }
 
